@@ -648,6 +648,90 @@ def knotF : Nat → Knot
 /-- the patched `type_definition(input)` -/
 def parseTypeF : P Ty := fun i => (knotF (i.length + 1)).td i
 
+/-! ### The grammar since /repo 1d93429 (repair of the fifth exponential form, notes/C18-fixes/04) — THE
+MODEL OF THE CODE: as the left-factored grammar above, but the parenthesised process forms `(@-> t)` /
+`(@t -> t)` are continued from the first field that `paren_type` has already read, instead of being
+parsed by a separate alternative. `Theorems/C18Types.lean: receive_factored_eq` proves that it is the
+same function of the input (`Lemmas/Parse/Receive.lean`). -/
+
+/-- `paren_process_from_first` (/repo 1d93429): the parenthesised process forms `(@-> t)` /
+    `(@t -> t)`, continued from the first field that `paren_type` has already read -/
+def parenProcessFromFirst (k : Knot) (i : Str) (l : Option ParenList) : Res Ty :=
+  match l with
+  | some ⟨Field.field none (Ty.proc recv none) :: _, some firstEnd, afterOpen, _⟩ =>
+    if headIs '@' afterOpen then
+      match (match recv with
+             | none => seq ws0 (seq (ptag ['-', '>']) ws1)
+             | some _ => arrow) firstEnd with
+      | .ok _ r1 =>
+        match k.bt r1 with
+        | .ok ret r2 =>
+          match pchar ')' r2 with
+          | .ok _ rest => .ok (.proc recv (some ret)) rest
+          | _ => .err i .verify
+        | .err _ _ => .err i .verify
+        | .out => .out
+      | _ => .err i .verify
+    else .err i .verify
+  | _ => .err i .verify
+
+/-- `paren_type(input, group_before_process)` since 1d93429 -/
+def parenTypeG (groupFirst : Bool) (k : Knot) : P Ty := fun i =>
+  match parenList k i with
+  | .out => .out
+  | .err _ _ => parenAfterPartial groupFirst i none (.err i .verify)
+  | .ok l position =>
+    match closeParen position with
+    | .ok _ rest =>
+      if isPartialFields l.fields then .ok (.tuple none l.fields true) rest
+      else parenAfterPartial groupFirst i (some l) (parenProcessFromFirst k i (some l))
+    | _ => parenAfterPartial groupFirst i (some l) (parenProcessFromFirst k i (some l))
+
+def functionIoTypeG (k : Knot) : P Ty :=
+  alt (namedPartialType k)
+  (alt (parenTypeG true k)
+  (alt (tupleType k)
+  (alt resourceType
+  (alt typeCycle
+  (alt (atProcessType k)
+  (alt (moduleType k)
+  (alt (typeIdentifier k)
+       (selfDefaultType k))))))))
+
+def functionTypeG (k : Knot) : P Ty :=
+  seq (pchar '#')
+    (bind (functionIoTypeG k) fun a => seq arrow (pmap (functionIoTypeG k) fun b => Ty.func a b))
+
+def baseTypeG (k : Knot) : P Ty :=
+  alt (tupleType k)
+  (alt (namedPartialType k)
+  (alt (parenTypeG false k)
+  (alt resourceType
+  (alt typeCycle
+  (alt (atProcessType k)
+  (alt typeParameter
+  (alt (moduleType k)
+  (alt (typeIdentifier k)
+       (selfDefaultType k)))))))))
+
+def typeDefinitionG (k : Knot) (bt : P Ty) : P Ty :=
+  alt (functionTypeG k)
+    (seq (opt (barOp '|'))
+      (bind (intersectionType bt) fun first =>
+        pmap (many0 (seq (barOp '|') (intersectionType bt))) fun rest =>
+          if rest.isEmpty then first else Ty.union (first :: rest)))
+
+def Knot.stepG (k : Knot) : Knot :=
+  { bt := baseTypeG k, td := typeDefinitionG k (baseTypeG k) }
+
+def knotG : Nat → Knot
+  | 0 => { td := fun _ => .out, bt := fun _ => .out }
+  | n + 1 => (knotG n).stepG
+
+
+/-- the patched `type_definition(input)` -/
+def parseTypeG : P Ty := fun i => (knotG (i.length + 1)).td i
+
 /-- One unfolding of the grammar: the new `base_type` calls the old knot only after consuming a
     character; the new `type_definition` uses the new `base_type` at the same position. -/
 def Knot.step (k : Knot) : Knot :=
@@ -672,6 +756,12 @@ def parseFunctionIoType : P Ty := fun i => functionIoType (knot (i.length + 1)) 
 /-- the patched `base_type(input)` -/
 def parseBaseTypeF : P Ty := fun i => (knotF (i.length + 1)).bt i
 
+/-- `base_type(input)` of the code (1d93429) -/
+def parseBaseTypeG : P Ty := fun i => (knotG (i.length + 1)).bt i
+
+/-- `function_input_type(input)` of the code (1d93429) -/
+def parseFunctionIoTypeG : P Ty := fun i => functionIoTypeG (knotG (i.length + 1)) i
+
 /-- the patched `function_input_type(input)` -/
 def parseFunctionIoTypeF : P Ty := fun i => functionIoTypeF (knotF (i.length + 1)) i
 
@@ -688,12 +778,15 @@ def inlineTypeExpression (k : Knot) : P Ty :=
 /-- `inline_type_expression(input)` -/
 def parseInlineTypeF : P Ty := fun i => inlineTypeExpression (knotF (i.length + 1)) i
 
-/-- `type_alias` (over the patched `type_definition`, which is the same function:
-    `partial_or_group_factored_eq`) -/
+/-- `inline_type_expression(input)` of the code (1d93429) -/
+def parseInlineTypeG : P Ty := fun i => inlineTypeExpression (knotG (i.length + 1)) i
+
+/-- `type_alias` (over the `type_definition` of the code, which is the same function as the original
+    one: `partial_or_group_factored_eq`, `receive_factored_eq`) -/
 def typeAlias : P Alias :=
   bind (seq (pchar '\'') (opt identifier)) fun name =>
     bind (opt (delimited (pchar '<') (sepList1 commaWs0 typeName) (pchar '>'))) fun ps =>
-      seq (seq ws0 (seq (pchar '=') ws0)) (pmap parseTypeF fun t => ⟨name, ps.getD [], t⟩)
+      seq (seq ws0 (seq (pchar '=') ws0)) (pmap parseTypeG fun t => ⟨name, ps.getD [], t⟩)
 
 /-! ### The tail of `program` after a leading alias
 
